@@ -13,7 +13,10 @@ Live(s) == s \notin {"-", "hung up", "lost"}
 P_AtMostOneGo(o) == Cardinality({l \in L(o) : InSeq("go", o.l[l].sentS)}) <= 1
 P_GoOnlyAfterRH(o) == \A l \in L(o) : InSeq("go", o.l[l].sentS) => InSeq("RH", o.l[l].gotS)
 P_ReceiverNeedsGo(o) == \A l \in L(o) : o.l[l].stR = "records" => (InSeq("SH", o.l[l].gotR) /\ InSeq("go", o.l[l].gotR))
-P_SameLink(o) == (o.resultS \in L(o) /\ o.resultR \in L(o)) => o.resultS = o.resultR
+\* ... and stay that: o.selectedStays - with nothing else happening for three negotiation time-outs after both results were
+\* the two ends of one link in "records", every due timer firing, the link is still up at both ends
+P_SameLink(o) == /\ (o.resultS \in L(o) /\ o.resultR \in L(o)) => o.resultS = o.resultR
+                 /\ o.selectedStays
 KeyHolderKind(k) == HonestKind(k) \/ k = "altsenderR"
 P_KeyHoldersOnly(o) == /\ (o.resultS \in L(o) => KeyHolderKind(o.l[o.resultS].kind))
                        /\ (o.resultR \in L(o) => KeyHolderKind(o.l[o.resultR].kind))
